@@ -1,9 +1,11 @@
 package main
 
 import (
+	"context"
 	"encoding/json"
 	"fmt"
 	"os"
+	"os/exec"
 	"path/filepath"
 	"regexp"
 	"sort"
@@ -495,6 +497,13 @@ func runCheck(cfg RunConfig) int {
 						budget = 180 * time.Second
 					}
 					if s != 0 && time.Since(time.Unix(0, s)) > budget {
+						// a slow call is only a violation if it is slow in a fresh process too: on an overloaded machine a
+						// starved worker can exceed any wall-clock budget
+						if confirmReturns(cfg, c, budget) {
+							e.started[i].CompareAndSwap(s, time.Now().UnixNano())
+							fmt.Printf("note: a call exceeded its budget in the run but returned within it in a fresh process (machine load): %.60q\n", c.S)
+							continue
+						}
 						path := filepath.Join(cfg.ReplayDir, cfg.Prop+"-hang.json")
 						writeJSON(path, Failure{Case: c, Class: "crash", Clause: "an implementation call did not return within its budget (20 s for inputs up to 5 kB; 180 s above: json.Marshal of a 10^4-deep tree, the slowest legitimate call, is quadratic and takes about 30 s)"})
 						fmt.Printf("VIOLATION property=%s replay=%s\n", cfg.Prop, path)
@@ -535,6 +544,24 @@ func runCheck(cfg RunConfig) int {
 	wg.Wait()
 	close(stop)
 	return report(cfg, e.stats, time.Since(t0))
+}
+
+// confirmReturns runs the implementation calls of one case in a fresh process and reports whether they return within
+// the budget.
+func confirmReturns(cfg RunConfig, c Case, budget time.Duration) bool {
+	os.MkdirAll(cfg.ReplayDir, 0o755)
+	f, err := os.CreateTemp(cfg.ReplayDir, "confirm-*.json")
+	if err != nil {
+		return false
+	}
+	defer os.Remove(f.Name())
+	b, _ := json.Marshal(c)
+	f.Write(b)
+	f.Close()
+	ctx, cancel := context.WithTimeout(context.Background(), budget)
+	defer cancel()
+	cmd := exec.CommandContext(ctx, os.Args[0], "confirm", f.Name())
+	return cmd.Run() == nil && ctx.Err() == nil
 }
 
 // Result is what `drive run` hands to bin/check.
